@@ -239,6 +239,8 @@ class FileDataPdu(AbstractPduBase):
         if file_data_packet.pdu_header.crc_flag == CrcFlag.WITH_CRC:
             end_of_file_data -= 2
         if file_data_packet.pdu_header.segment_metadata_flag:
+            if current_idx + 1 > end_of_file_data:
+                raise BytesTooShortError(current_idx + 1, end_of_file_data)
             rec_cont_state = RecordContinuationState((data[current_idx] & 0xC0) >> 6)
             segment_metadata_len = data[current_idx] & 0x3F
             current_idx += 1
